@@ -8,20 +8,22 @@ Open Scope Z_scope.
 (* ------------------------------------------------------------------ one response against the head request *)
 (* what the state looks like after response r was handled against request q as pair k *)
 Definition handled_as (s : state) (r : resp) (q : req) (k : nat) (s' : state) : Prop :=
+  let app := q_app q in
   exists l,
-    aget Z.eqb (q_res q) (arrs s) = Some l /\ ((k + 1) * OK_FIELDS <= List.length l)%nat /\
+    aget pair_eqb (app, q_res q) (arrs s) = Some l /\ ((k + 1) * OK_FIELDS <= List.length l)%nat /\
     reqs s' = dec_first (matches (node s) r) (reqs s) /\
-    arrs s' = aset Z.eqb (q_res q) (write_from l (k * OK_FIELDS) (map Some (info_of r))) (arrs s) /\
+    arrs s' = aset pair_eqb (app, q_res q) (write_from l (k * OK_FIELDS) (map Some (info_of r))) (arrs s) /\
     log s' = (r_id r, q_id q, k) :: log s /\
     pend s' = pend s /\ node s' = node s /\ subs s' = subs s /\ next_sid s' = next_sid s /\
     next_req s' = next_req s /\ next_resp s' = next_resp s /\ issued s' = issued s /\
     (if r_k r
-     then exists qa lq v i,
-         q_qarr q = Some qa /\ aget Z.eqb qa (arrs s) = Some lq /\ nth_error lq k = Some (Some v) /\
-         has_virtual (um s) v = false /\ slot (List.length (um s)) v = Slot i /\
-         nth_error (um s) i = Some None /\
-         um s' = set_nth (um s) i (Some (r_q r)) /\ used s' = add2 (0, r_q r) (used s)
-     else um s' = um s /\ used s' = used s).
+     then exists qa lq v um i,
+         q_qarr q = Some qa /\ aget pair_eqb (app, qa) (arrs s) = Some lq /\ nth_error lq k = Some (Some v) /\
+         aget Z.eqb app (ums s) = Some um /\
+         has_virtual um v = false /\ slot (List.length um) v = Slot i /\
+         nth_error um i = Some None /\
+         ums s' = aset Z.eqb app (set_nth um i (Some (r_q r))) (ums s) /\ used s' = add2 (0, r_q r) (used s)
+     else ums s' = ums s /\ used s' = used s).
 
 Lemma try_handle_handled s r s' :
   try_handle s r = Handled s' ->
@@ -31,33 +33,34 @@ Proof.
   unfold try_handle. destruct (find (matches (node s) r) (reqs s)) as [q|] eqn:Ef; [|discriminate].
   destruct (alive s (q_sid q)) eqn:Ea; cbn [negb]; [|discriminate].
   intros H. exists q. split; [reflexivity|]. split; [exact Ea|].
-  set (k := (q_tot q - q_left q)%nat) in *.
+  set (k := (q_tot q - q_left q)%nat) in *. cbn zeta in H.
   assert (FIN : forall u us,
-             match aget Z.eqb (q_res q) (arrs s) with
+             match aget pair_eqb (q_app q, q_res q) (arrs s) with
              | None => HFault EResSlice
              | Some l =>
                  if Nat.leb ((k + 1) * OK_FIELDS) (List.length l)
                  then Handled (with_handled s (dec_first (matches (node s) r) (reqs s))
-                                            (aset Z.eqb (q_res q) (write_from l (k * OK_FIELDS) (map Some (info_of r))) (arrs s))
+                                            (aset pair_eqb (q_app q, q_res q) (write_from l (k * OK_FIELDS) (map Some (info_of r))) (arrs s))
                                             u us (r_id r, q_id q, k))
                  else HFault EResSlice
              end = Handled s' ->
-             exists l, aget Z.eqb (q_res q) (arrs s) = Some l /\ ((k + 1) * OK_FIELDS <= List.length l)%nat /\
+             exists l, aget pair_eqb (q_app q, q_res q) (arrs s) = Some l /\ ((k + 1) * OK_FIELDS <= List.length l)%nat /\
                        s' = with_handled s (dec_first (matches (node s) r) (reqs s))
-                                         (aset Z.eqb (q_res q) (write_from l (k * OK_FIELDS) (map Some (info_of r))) (arrs s))
+                                         (aset pair_eqb (q_app q, q_res q) (write_from l (k * OK_FIELDS) (map Some (info_of r))) (arrs s))
                                          u us (r_id r, q_id q, k)).
-  { intros u us. destruct (aget Z.eqb (q_res q) (arrs s)) as [l|]; [|discriminate].
+  { intros u us. destruct (aget pair_eqb (q_app q, q_res q) (arrs s)) as [l|]; [|discriminate].
     destruct (Nat.leb ((k + 1) * OK_FIELDS) (List.length l)) eqn:El; [|discriminate].
     intros H'. inversion H'. exists l. split; [reflexivity|]. split; [apply Nat.leb_le; exact El | reflexivity]. }
-  unfold handled_as. destruct (r_k r).
+  unfold handled_as. cbn zeta. destruct (r_k r).
   - destruct (q_qarr q) as [qa|] eqn:Eqa; [|discriminate].
-    destruct (aget Z.eqb qa (arrs s)) as [lq|] eqn:Eq; [|discriminate].
+    destruct (aget pair_eqb (q_app q, qa) (arrs s)) as [lq|] eqn:Eq; [|discriminate].
     destruct (nth_error lq k) as [[v|]|] eqn:En; try discriminate.
-    destruct (has_virtual (um s) v) eqn:Eh; [discriminate|].
-    destruct (slot (List.length (um s)) v) as [i| |] eqn:Es; try discriminate.
-    destruct (nth_error (um s) i) as [[p|]|] eqn:Eu; try discriminate.
+    destruct (aget Z.eqb (q_app q) (ums s)) as [um|] eqn:Eum; [|discriminate].
+    destruct (has_virtual um v) eqn:Eh; [discriminate|].
+    destruct (slot (List.length um) v) as [i| |] eqn:Es; try discriminate.
+    destruct (nth_error um i) as [[p|]|] eqn:Eu; try discriminate.
     destruct (FIN _ _ H) as (l & H1 & H2 & ->). exists l. cbn.
-    repeat (split; [first [assumption | reflexivity]|]). exists qa, lq, v, i. repeat split; auto.
+    repeat (split; [first [assumption | reflexivity]|]). exists qa, lq, v, um, i. repeat split; auto.
   - destruct (FIN _ _ H) as (l & H1 & H2 & ->). exists l. cbn.
     repeat (split; [first [assumption | reflexivity]|]). split; reflexivity.
 Qed.
@@ -67,33 +70,35 @@ Qed.
 Lemma try_handle_notnow s r :
   try_handle s r = NotNow ->
   find (matches (node s) r) (reqs s) = None \/
-  (exists q qa lq v, find (matches (node s) r) (reqs s) = Some q /\ r_k r = true /\ q_qarr q = Some qa /\
-                     aget Z.eqb qa (arrs s) = Some lq /\ nth_error lq (q_tot q - q_left q) = Some (Some v) /\
-                     has_virtual (um s) v = true).
+  (exists q qa lq v um, find (matches (node s) r) (reqs s) = Some q /\ r_k r = true /\ q_qarr q = Some qa /\
+                        aget pair_eqb (q_app q, qa) (arrs s) = Some lq /\
+                        nth_error lq (q_tot q - q_left q) = Some (Some v) /\
+                        aget Z.eqb (q_app q) (ums s) = Some um /\ has_virtual um v = true).
 Proof.
   unfold try_handle. destruct (find (matches (node s) r) (reqs s)) as [q|] eqn:Ef; [|auto].
   destruct (alive s (q_sid q)); cbn [negb]; [|discriminate].
-  intros H. right.
+  intros H. right. cbn zeta in H.
   assert (FIN : forall u us,
-             match aget Z.eqb (q_res q) (arrs s) with
+             match aget pair_eqb (q_app q, q_res q) (arrs s) with
              | None => HFault EResSlice
              | Some l =>
                  if Nat.leb ((q_tot q - q_left q + 1) * OK_FIELDS) (List.length l)
                  then Handled (with_handled s (dec_first (matches (node s) r) (reqs s))
-                                            (aset Z.eqb (q_res q) (write_from l ((q_tot q - q_left q) * OK_FIELDS) (map Some (info_of r))) (arrs s))
+                                            (aset pair_eqb (q_app q, q_res q) (write_from l ((q_tot q - q_left q) * OK_FIELDS) (map Some (info_of r))) (arrs s))
                                             u us (r_id r, q_id q, (q_tot q - q_left q)%nat))
                  else HFault EResSlice
              end <> NotNow).
-  { intros u us. destruct (aget Z.eqb (q_res q) (arrs s)) as [l|]; [|discriminate].
+  { intros u us. destruct (aget pair_eqb (q_app q, q_res q) (arrs s)) as [l|]; [|discriminate].
     destruct (Nat.leb _ (List.length l)); discriminate. }
   destruct (r_k r) eqn:Ek; [|exfalso; exact (FIN _ _ H)].
   destruct (q_qarr q) as [qa|] eqn:Eqa; [|discriminate].
-  destruct (aget Z.eqb qa (arrs s)) as [lq|] eqn:Eq; [|discriminate].
+  destruct (aget pair_eqb (q_app q, qa) (arrs s)) as [lq|] eqn:Eq; [|discriminate].
   destruct (nth_error lq (q_tot q - q_left q)) as [[v|]|] eqn:En; try discriminate.
-  destruct (has_virtual (um s) v) eqn:Eh.
-  - exists q, qa, lq, v. repeat split; auto.
-  - destruct (slot (List.length (um s)) v) as [i| |]; try discriminate.
-    destruct (nth_error (um s) i) as [[p|]|]; try discriminate. exfalso. exact (FIN _ _ H).
+  destruct (aget Z.eqb (q_app q) (ums s)) as [um|] eqn:Eum; [|discriminate].
+  destruct (has_virtual um v) eqn:Eh.
+  - exists q, qa, lq, v, um. repeat split; auto.
+  - destruct (slot (List.length um) v) as [i| |]; try discriminate.
+    destruct (nth_error um i) as [[p|]|]; try discriminate. exfalso. exact (FIN _ _ H).
 Qed.
 
 (* ------------------------------------------------------------------ the scan: first handleable response wins *)
@@ -162,46 +167,48 @@ Definition arrive (s : state) (r : resp) : state :=
   mkSt (node s) (reqs s)
        (pend s ++ [mkResp (next_resp s) (r_k r) (r_remote r) (r_purpose r) (r_flag r) (r_q r) (r_cid r) (r_seq r)
                           (r_good r) (r_x r) (r_bell r)])
-       (arrs s) (um s) (used s) (subs s) (next_sid s) (next_req s) (S (next_resp s)) (log s) (issued s).
-
-Definition qubit_change (s : state) (u : list (option Z)) (us : list (Z * Z)) : state :=
-  mkSt (node s) (reqs s) (pend s) (arrs s) u us (subs s) (next_sid s + 1) (next_req s) (next_resp s) (log s) (issued s).
+       (arrs s) (ums s) (used s) (subs s) (next_sid s) (next_req s) (S (next_resp s)) (log s) (issued s).
 
 (* a property preserved by the five elementary changes is preserved by every fault-free step *)
 Lemma step_preserves (P : state -> Prop) :
   (forall s s2, P s -> hit s s2 -> P s2) ->
   (forall s r, P s -> P (arrive s r)) ->
-  (forall s k c qa res n ar ws, (1 <= n)%nat -> P s -> P (enqueue s k c qa res n ar ws)) ->
+  (forall s app k c qa res n ar ws, (1 <= n)%nat -> P s -> P (enqueue s app k c qa res n ar ws)) ->
   (forall s x, P s -> P (set_subs s x)) ->
-  (forall s u us, P s -> P (qubit_change s u us)) ->
-  (forall s ar, P s -> P (declare s ar)) ->
+  (forall s ar u us sid, P s -> P (frame s ar u us sid)) ->
   forall s e s', P s -> step s e = (s', None) -> P s'.
 Proof.
-  intros Hhit Harr Henq Hsub Hq Hdecl s e s' Ps H.
+  intros Hhit Harr Henq Hsub Hfr s e s' Ps H.
   assert (Hdrain : forall s0 s1, P s1 -> of_pres s0 (handle_all s1) = (s', None) -> P s').
   { intros s0 s1 P1 H1. unfold of_pres in H1. destruct (handle_all s1) as [s2| |] eqn:E; inversion H1; subst.
     exact (proj1 (handle_pending_ind P Hhit _ _ _ P1 E)). }
   assert (Hpoll : forall s1 sid, P s1 -> poll s1 sid = (s', None) -> P s').
-  { intros s1 sid P1 H1. unfold poll in H1. destruct (aget Z.eqb sid (subs s1)) as [ws|]; [|discriminate].
-    destruct (advance (arrs s1) ws) as [[|w ws']|]; inversion H1; subst; apply Hsub; exact P1. }
-  destruct e as [k tpk vs n qarr args res ws|k vs n qarr res ws|k tpk vs n qarr args res|r| |sid|v|v]; cbn [step] in H.
-  - destruct (Nat.eqb n 0) eqn:En; cbn [orb] in H; [discriminate|].
+  { intros s1 sid P1 H1. unfold poll in H1. destruct (aget Z.eqb sid (subs s1)) as [[app ws]|]; [|discriminate].
+    destruct (advance (app_arrs (arrs s1) app) ws) as [[|w ws']|]; inversion H1; subst; apply Hsub; exact P1. }
+  destruct e as [app n|app|app k tpk vs n qarr args res ws|app k vs n qarr res ws|app k tpk vs n qarr args res
+                |r| |sid|app v|app v]; cbn [step] in H.
+  - destruct (registered s app); inversion H; subst. apply Hfr. exact Ps.
+  - destruct (aget Z.eqb app (ums s)) as [um|]; inversion H; subst. apply Hfr. exact Ps.
+  - destruct (registered s app); cbn [negb] in H; [|discriminate].
+    destruct (Nat.eqb n 0) eqn:En; cbn [orb] in H; [discriminate|].
     destruct (tpk && negb (Nat.eqb (List.length vs) n)); [discriminate|].
     apply Nat.eqb_neq in En. eapply Hpoll; [|exact H]. apply Henq; [lia | exact Ps].
-  - destruct (Nat.eqb n 0) eqn:En; [discriminate|].
+  - destruct (registered s app); cbn [negb] in H; [|discriminate].
+    destruct (Nat.eqb n 0) eqn:En; [discriminate|].
     apply Nat.eqb_neq in En. eapply Hpoll; [|exact H]. apply Henq; [lia | exact Ps].
-  - destruct (Nat.eqb n 0 || tpk && negb (Nat.eqb (List.length vs) n)); [discriminate|].
-    inversion H; subst. apply Hdecl. exact Ps.
+  - destruct (registered s app); cbn [negb] in H; [|discriminate].
+    destruct (Nat.eqb n 0 || tpk && negb (Nat.eqb (List.length vs) n)); [discriminate|].
+    inversion H; subst. apply Hfr. exact Ps.
   - eapply Hdrain; [|exact H]. apply (Harr s r Ps).
   - eapply Hdrain; [|exact H]. exact Ps.
   - eapply Hpoll; eauto.
-  - cbn [bump_sid um used node reqs pend arrs subs next_sid next_req next_resp log issued] in H.
-    destruct (slot (List.length (um s)) v) as [i| |]; try discriminate.
-    destruct (nth_error (um s) i) as [[p|]|]; inversion H; subst. apply (Hq s _ _ Ps).
-  - cbn [bump_sid um used node reqs pend arrs subs next_sid next_req next_resp log issued] in H.
-    destruct (slot (List.length (um s)) v) as [i| |]; try discriminate.
-    destruct (nth_error (um s) i) as [[p|]|]; try discriminate.
-    destruct (first_unused 0 (used s)) as [p|]; inversion H; subst. apply (Hq s _ _ Ps).
+  - destruct (aget Z.eqb app (ums s)) as [um|]; [|discriminate].
+    destruct (slot (List.length um) v) as [i| |]; try discriminate.
+    destruct (nth_error um i) as [[p|]|]; inversion H; subst. apply Hfr. exact Ps.
+  - destruct (aget Z.eqb app (ums s)) as [um|]; [|discriminate].
+    destruct (slot (List.length um) v) as [i| |]; try discriminate.
+    destruct (nth_error um i) as [[p|]|]; try discriminate.
+    destruct (first_unused 0 (used s)) as [p|]; inversion H; subst. apply Hfr. exact Ps.
 Qed.
 
 Lemma run_preserves (P : state -> Prop) :
@@ -250,20 +257,19 @@ Proof.
     rewrite seq_S. cbn [plus]. rewrite <- app_assoc.
     eapply Permutation_trans; [apply Permutation_app_head; apply Permutation_app_comm|].
     rewrite app_assoc. apply Permutation_app_tail. exact H.
-  - intros s k c qa res n ar ws _ H. exact H.
+  - intros s ap k c qa res n ar ws _ H. exact H.
   - intros s x H. exact H.
-  - intros s u us H. exact H.
-  - intros s ar H. exact H.
+  - intros s ar u us sid H. exact H.
 Qed.
 
-Theorem exactly_once_run nd n es s : run (init_state nd n) es = Some s -> exactly_once s.
+Theorem exactly_once_run nd es s : run (init_state nd) es = Some s -> exactly_once s.
 Proof.
   apply (run_preserves exactly_once exactly_once_step). unfold exactly_once. cbn. constructor.
 Qed.
 
 (* ------------------------------------------------------------------ dec_first = decrement / pop the first match *)
 Definition dec_left (q : req) : req :=
-  mkReq (q_id q) (q_key q) (q_creator q) (q_sid q) (q_res q) (q_qarr q) (q_tot q) (pred (q_left q)).
+  mkReq (q_id q) (q_key q) (q_creator q) (q_sid q) (q_app q) (q_res q) (q_qarr q) (q_tot q) (pred (q_left q)).
 
 Lemma dec_first_spec f l :
   (find f l = None /\ dec_first f l = l) \/
@@ -311,7 +317,7 @@ Proof.
     + split; [rewrite map_app; cbn [map dec_left q_id]; exact S|]. rewrite Forall_app. split; [exact F1|]. constructor; auto.
     + split; [rewrite map_app; exact (proj1 (sorted_app_inv _ _ _ S))|]. rewrite Forall_app. auto.
   - intros s r H. exact H.
-  - intros s k c qa res n ar ws _ [S F]. cbn [enqueue reqs next_req]. split.
+  - intros s ap k c qa res n ar ws _ [S F]. cbn [enqueue reqs next_req]. split.
     + rewrite map_app. cbn [map q_id].
       assert (G : forall l : list nat, StronglySorted lt l -> Forall (fun y => (y < next_req s)%nat) l ->
                                        StronglySorted lt (l ++ [next_req s])).
@@ -323,11 +329,10 @@ Proof.
       * eapply Forall_impl; [|exact F]. cbn. intros a Ha. lia.
       * constructor; [cbn; lia | constructor].
   - intros s x H. exact H.
-  - intros s u us H. exact H.
-  - intros s ar H. exact H.
+  - intros s ar u us sid H. exact H.
 Qed.
 
-Lemma ids_ok_init nd n : ids_ok (init_state nd n).
+Lemma ids_ok_init nd : ids_ok (init_state nd).
 Proof. split; cbn; constructor. Qed.
 
 (* refines_fifo, part 1: the request charged is the OLDEST outstanding request of the
@@ -423,8 +428,8 @@ Proof.
   apply (step_preserves counts_ok); clear.
   - intros s s2 H HH. exact (counts_ok_hit s s2 H HH).
   - intros s r H. exact H.
-  - intros s k c qa res n ar ws Hn (I & B & C & L).
-    assert (I2 : ids_ok (enqueue s k c qa res n ar ws)).
+  - intros s ap k c qa res n ar ws Hn (I & B & C & L).
+    assert (I2 : ids_ok (enqueue s ap k c qa res n ar ws)).
     { destruct I as [S F]. unfold ids_ok. cbn [enqueue reqs next_req]. split.
       + rewrite map_app. cbn [map q_id].
         assert (G : forall l : list nat, StronglySorted lt l -> Forall (fun y => (y < next_req s)%nat) l ->
@@ -441,14 +446,13 @@ Proof.
     + rewrite Forall_app. split; [exact C|]. constructor; [|constructor]. cbn [q_left q_tot q_id].
       rewrite (count_zero _ _ B). split; lia.
   - intros s x H. exact H.
-  - intros s u us H. exact H.
-  - intros s ar H. exact H.
+  - intros s ar u us sid H. exact H.
 Qed.
 
-Lemma counts_ok_init nd n : counts_ok (init_state nd n).
+Lemma counts_ok_init nd : counts_ok (init_state nd).
 Proof. split; [apply ids_ok_init|]. cbn. repeat split; constructor. Qed.
 
-Theorem counts_ok_run nd n es s : run (init_state nd n) es = Some s -> counts_ok s.
+Theorem counts_ok_run nd es s : run (init_state nd) es = Some s -> counts_ok s.
 Proof. apply (run_preserves counts_ok counts_ok_step). apply counts_ok_init. Qed.
 
 (* refines_fifo, part 2, and retire_exact: a handled response is charged to the head
@@ -517,31 +521,44 @@ Theorem hit_effect s s2 :
   hit s s2 ->
   exists r q,
     let k := (q_tot q - q_left q)%nat in
+    let app := q_app q in
     find (matches (node s) r) (reqs s) = Some q /\
     log s2 = (r_id r, q_id q, k) :: log s /\
-    (* slice_k: pair k fills slice k of that request's result array with the response *)
-    (exists l2, aget Z.eqb (q_res q) (arrs s2) = Some l2 /\
+    (* slice_k: pair k fills slice k of that request's result array (of the request's
+       application) with the response; no other array changes *)
+    (exists l2, aget pair_eqb (app, q_res q) (arrs s2) = Some l2 /\
                 forall j, (j < OK_FIELDS)%nat ->
                           nth_error l2 (k * OK_FIELDS + j) = nth_error (map Some (info_of r)) j) /\
-    (* qubit_k + no_overwrite: a keep response maps the request's k-th virtual qubit, which
-       was not allocated, to the delivered physical qubit and touches no other slot *)
+    (forall key, key <> (app, q_res q) -> aget pair_eqb key (arrs s2) = aget pair_eqb key (arrs s)) /\
+    (* qubit_k + no_overwrite: a keep response maps the request's k-th virtual qubit in the
+       unit module of the request's application, which was not allocated, to the delivered
+       physical qubit; no other slot and no other application's unit module changes *)
     (r_k r = true ->
-     exists qa lq v i,
-       q_qarr q = Some qa /\ aget Z.eqb qa (arrs s) = Some lq /\ nth_error lq k = Some (Some v) /\
-       slot (List.length (um s)) v = Slot i /\ nth_error (um s) i = Some None /\
-       nth_error (um s2) i = Some (Some (r_q r)) /\
-       forall j, j <> i -> nth_error (um s2) j = nth_error (um s) j) /\
-    (r_k r = false -> um s2 = um s).
+     exists qa lq v um um2 i,
+       q_qarr q = Some qa /\ aget pair_eqb (app, qa) (arrs s) = Some lq /\ nth_error lq k = Some (Some v) /\
+       aget Z.eqb app (ums s) = Some um /\ aget Z.eqb app (ums s2) = Some um2 /\
+       slot (List.length um) v = Slot i /\ nth_error um i = Some None /\
+       nth_error um2 i = Some (Some (r_q r)) /\
+       (forall j, j <> i -> nth_error um2 j = nth_error um j) /\
+       (forall app', app' <> app -> aget Z.eqb app' (ums s2) = aget Z.eqb app' (ums s))) /\
+    (r_k r = false -> ums s2 = ums s).
 Proof.
   intros (r & s' & l1 & l2 & E & F & T & ->).
   destruct (try_handle_handled _ _ _ T) as (q & Hf & Ha & (l & H1 & H2 & H3 & H4 & H5 & _ & _ & _ & _ & _ & _ & _ & HK)).
-  exists r, q. cbn zeta. cbn [set_pend log arrs um]. split; [exact Hf|]. split; [exact H5|]. split; [|split].
-  - rewrite H4, agetZ_aset, Z.eqb_refl. eexists. split; [reflexivity|]. intros j Hj.
+  exists r, q. cbn zeta. cbn [set_pend log arrs ums]. split; [exact Hf|]. split; [exact H5|].
+  split; [|split; [|split]].
+  - rewrite H4, aget_aset, pair_eqb_refl. eexists. split; [reflexivity|]. intros j Hj.
     apply write_from_at; rewrite map_length; unfold info_of, OK_FIELDS in *; destruct (r_k r); cbn [List.length] in *; lia.
-  - intros Ek. rewrite Ek in HK. destruct HK as (qa & lq & v & i & K1 & K2 & K3 & K4 & K5 & K6 & K7 & _).
-    exists qa, lq, v, i. repeat split; auto.
-    + rewrite K7. apply nth_error_set_nth_same. eapply nth_error_lt; eauto.
-    + intros j Hj. rewrite K7. apply nth_error_set_nth_other. auto.
+  - intros key NE. rewrite H4, aget_aset. destruct (pair_eqb key (q_app q, q_res q)) eqn:Ek; [|reflexivity].
+    apply pair_eqb_eq in Ek. contradiction.
+  - intros Ek. rewrite Ek in HK. destruct HK as (qa & lq & v & um & i & K1 & K2 & K3 & K4 & K5 & K6 & K7 & K8 & _).
+    exists qa, lq, v, um, (set_nth um i (Some (r_q r))), i.
+    split; [exact K1|]. split; [exact K2|]. split; [exact K3|]. split; [exact K4|].
+    split; [rewrite K8, agetZ_aset, Z.eqb_refl; reflexivity|]. split; [exact K6|]. split; [exact K7|].
+    split; [apply nth_error_set_nth_same; eapply nth_error_lt; eauto|].
+    split; [intros j Hj; apply nth_error_set_nth_other; auto|].
+    intros app' NE. rewrite K8, agetZ_aset. destruct (Z.eqb app' (q_app q)) eqn:Ea; [|reflexivity].
+    apply Z.eqb_eq in Ea. contradiction.
   - intros Ek. rewrite Ek in HK. exact (proj1 HK).
 Qed.
 
@@ -549,11 +566,12 @@ Qed.
    virtual qubit is still allocated: it is deferred, and the state is left as it is *)
 Theorem deferred_only_when_busy s r q :
   try_handle s r = NotNow -> find (matches (node s) r) (reqs s) = Some q ->
-  r_k r = true /\ exists qa lq v, q_qarr q = Some qa /\ aget Z.eqb qa (arrs s) = Some lq /\
-                                  nth_error lq (q_tot q - q_left q) = Some (Some v) /\ has_virtual (um s) v = true.
+  r_k r = true /\ exists qa lq v um, q_qarr q = Some qa /\ aget pair_eqb (q_app q, qa) (arrs s) = Some lq /\
+                                     nth_error lq (q_tot q - q_left q) = Some (Some v) /\
+                                     aget Z.eqb (q_app q) (ums s) = Some um /\ has_virtual um v = true.
 Proof.
-  intros H Hf. destruct (try_handle_notnow _ _ H) as [Hn|(q' & qa & lq & v & Hf' & Hk & H1 & H2 & H3 & H4)]; [congruence|].
-  assert (q' = q) by congruence. subst q'. split; [exact Hk|]. exists qa, lq, v. auto.
+  intros H Hf. destruct (try_handle_notnow _ _ H) as [Hn|(q' & qa & lq & v & um & Hf' & Hk & H1 & H2 & H3 & H4 & H5)]; [congruence|].
+  assert (q' = q) by congruence. subst q'. split; [exact Hk|]. exists qa, lq, v, um. auto.
 Qed.
 
 (* after the drain nothing more can be done: every pending response lacks a request or is deferred *)
@@ -644,7 +662,7 @@ Definition demo_resp (k : bool) (flag cid q : Z) : resp := mkResp 0 k 1 0 flag q
 (* (ii) issuer_alive: a request whose subroutine has ended (no wait after create_epr) makes
    the handling of its response fault; nothing is consumed *)
 Theorem issuer_dead_refuted :
-  exists s r, run (init_state 0 2) [Create (1, 0) true [0] 1 0 1 2 []] = Some s /\
+  exists s r, run (init_state 0) [Init 0 2; Create 0 (1, 0) true [0] 1 0 1 2 []] = Some s /\
               List.length (reqs s) = 1%nat /\ subs s = [] /\
               step s (Resp r) = (arrive s r, Some EUnknownSub).
 Proof.
@@ -654,8 +672,8 @@ Qed.
 (* (iii) type_consistent: a measure-directly response is accepted for a create-and-keep
    request: the pair is consumed, its slice is written, but no qubit is mapped *)
 Theorem type_mismatch_refuted :
-  exists s, run (init_state 0 2) [Create (1, 0) true [0] 1 0 1 2 [WAll 2 0 10]; Resp (demo_resp false 0 1 1)] = Some s /\
-            log s = [(0, 0, 0)%nat] /\ reqs s = [] /\ um s = [None; None].
+  exists s, run (init_state 0) [Init 0 2; Create 0 (1, 0) true [0] 1 0 1 2 [WAll 2 0 10]; Resp (demo_resp false 0 1 1)] = Some s /\
+            log s = [(0, 0, 0)%nat] /\ reqs s = [] /\ ums s = [(0, [None; None])].
 Proof. eexists. vm_compute. repeat split; reflexivity. Qed.
 
 (* ------------------------------------------------------------------ retire_exact, with persistence *)
@@ -742,11 +760,11 @@ Proof.
   apply (step_preserves retired_ok); clear.
   - exact retired_ok_hit.
   - intros s r H. exact H.
-  - intros s k c qa res n ar ws Hn [CO AC].
+  - intros s ap k c qa res n ar ws Hn [CO AC].
     split.
     + (* counts_ok of the enqueued state: through counts_ok_step on a Recv-free path is awkward; redo directly *)
       destruct CO as (I & B & C & L).
-      assert (I2 : ids_ok (enqueue s k c qa res n ar ws)).
+      assert (I2 : ids_ok (enqueue s ap k c qa res n ar ws)).
       { destruct I as [S F]. unfold ids_ok. cbn [enqueue reqs next_req]. split.
         + rewrite map_app. cbn [map q_id].
           assert (G : forall l : list nat, StronglySorted lt l -> Forall (fun y => (y < next_req s)%nat) l ->
@@ -768,21 +786,20 @@ Proof.
         -- left. exists x. split; [apply in_or_app; auto | auto].
         -- right. split; [|exact Hcnt]. intros x Hx. apply in_app_or in Hx. destruct Hx as [Hx|[<-|[]]]; [auto | cbn; lia].
   - intros s x H. exact H.
-  - intros s u us H. exact H.
-  - intros s ar H. exact H.
+  - intros s ar u us sid H. exact H.
 Qed.
 
-Lemma retired_ok_init nd n : retired_ok (init_state nd n).
+Lemma retired_ok_init nd : retired_ok (init_state nd).
 Proof. split; [apply counts_ok_init | intros id tot []]. Qed.
 
 (* retire_exact: after any event list, a request that has been issued and is no longer
    outstanding has consumed exactly its number of pairs -- and this stays so *)
-Theorem retire_exact nd n es s id tot :
-  run (init_state nd n) es = Some s -> In (id, tot) (issued s) ->
+Theorem retire_exact nd es s id tot :
+  run (init_state nd) es = Some s -> In (id, tot) (issued s) ->
   (forall q, In q (reqs s) -> q_id q <> id) -> count id (log s) = tot.
 Proof.
   intros R Hi Hn.
-  destruct (run_preserves retired_ok retired_ok_step es _ _ (retired_ok_init nd n) R) as [_ AC].
+  destruct (run_preserves retired_ok retired_ok_step es _ _ (retired_ok_init nd) R) as [_ AC].
   destruct (AC id tot Hi) as [_ [(x & Hx & Hxi & _)|[_ H]]]; [exfalso; exact (Hn x Hx Hxi) | exact H].
 Qed.
 
@@ -790,40 +807,83 @@ Qed.
 (* network_stack.put raising inside create_epr: the subroutine ends there; the request queues,
    the pending list, the consumption log, the waiting subroutines and the unit module are
    exactly as before the instruction (only the arrays the subroutine declared exist) *)
-Theorem put_fault_leaves_queues_unchanged s k tpk vs n qarr args res s' :
-  step s (CreateRefused k tpk vs n qarr args res) = (s', None) ->
-  reqs s' = reqs s /\ pend s' = pend s /\ log s' = log s /\ subs s' = subs s /\ um s' = um s /\
+Theorem put_fault_leaves_queues_unchanged s app k tpk vs n qarr args res s' :
+  step s (CreateRefused app k tpk vs n qarr args res) = (s', None) ->
+  reqs s' = reqs s /\ pend s' = pend s /\ log s' = log s /\ subs s' = subs s /\ ums s' = ums s /\
   issued s' = issued s /\ next_req s' = next_req s /\
   forall k' c, queue s' k' c = queue s k' c.
 Proof.
-  cbn [step]. destruct (Nat.eqb n 0 || tpk && negb (Nat.eqb (List.length vs) n)); [discriminate|].
+  cbn [step]. destruct (registered s app); cbn [negb]; [|discriminate].
+  destruct (Nat.eqb n 0 || tpk && negb (Nat.eqb (List.length vs) n)); [discriminate|].
   intros H. inversion H; subst. cbn. repeat split; reflexivity.
 Qed.
 
 (* so a retry after the refusal is the only outstanding request of its key: the responses of
    the accepted request are charged to it (first match of an id-sorted list) *)
-Theorem retry_after_refusal_is_head nd k tpk vs n qarr args res vs2 n2 qarr2 args2 res2 ws s1 s2 s3 r :
-  step s1 (CreateRefused k tpk vs n qarr args res) = (s2, None) ->
-  step s2 (Create k tpk vs2 n2 qarr2 args2 res2 ws) = (s3, None) ->
+Theorem retry_after_refusal_is_head nd app k tpk vs n qarr args res vs2 n2 qarr2 args2 res2 ws s1 s2 s3 r :
+  step s1 (CreateRefused app k tpk vs n qarr args res) = (s2, None) ->
+  step s2 (Create app k tpk vs2 n2 qarr2 args2 res2 ws) = (s3, None) ->
   node s1 = nd -> find (matches nd r) (reqs s1) = None ->
-  matches nd r (mkReq (next_req s1) k true (next_sid s2) res2 (if tpk then Some qarr2 else None) n2 n2) = true ->
-  exists q, find (matches nd r) (reqs s3) = Some q /\ q_res q = res2 /\ q_id q = next_req s1.
+  matches nd r (mkReq (next_req s1) k true (next_sid s2) app res2 (if tpk then Some qarr2 else None) n2 n2) = true ->
+  exists q, find (matches nd r) (reqs s3) = Some q /\ q_res q = res2 /\ q_app q = app /\ q_id q = next_req s1.
 Proof.
   intros H1 H2 Hn Hf Hm.
-  destruct (put_fault_leaves_queues_unchanged _ _ _ _ _ _ _ _ _ H1) as (R & _ & _ & _ & _ & _ & NR & _).
-  assert (N2 : node s2 = nd).
-  { cbn [step] in H1. destruct (Nat.eqb n 0 || tpk && negb (Nat.eqb (List.length vs) n)); [discriminate|].
-    inversion H1; subst. reflexivity. }
-  cbn [step] in H2. destruct (Nat.eqb n2 0 || tpk && negb (Nat.eqb (List.length vs2) n2)); [discriminate|].
+  destruct (put_fault_leaves_queues_unchanged _ _ _ _ _ _ _ _ _ _ H1) as (R & _ & _ & _ & _ & _ & NR & _).
+  cbn [step] in H2. destruct (registered s2 app); cbn [negb] in H2; [|discriminate].
+  destruct (Nat.eqb n2 0 || tpk && negb (Nat.eqb (List.length vs2) n2)); [discriminate|].
   unfold poll in H2. cbn [enqueue subs next_sid arrs] in H2. rewrite agetZ_aset, Z.eqb_refl in H2.
-  assert (RQ : reqs s3 = reqs s2 ++ [mkReq (next_req s2) k true (next_sid s2) res2 (if tpk then Some qarr2 else None) n2 n2]).
+  assert (RQ : reqs s3 = reqs s2 ++ [mkReq (next_req s2) k true (next_sid s2) app res2 (if tpk then Some qarr2 else None) n2 n2]).
   { destruct (advance _ ws) as [[|w ws']|]; inversion H2; subst; reflexivity. }
-  assert (N3 : node s3 = nd).
-  { destruct (advance _ ws) as [[|w ws']|]; inversion H2; subst; exact N2. }
-  rewrite RQ, R, NR. exists (mkReq (next_req s1) k true (next_sid s2) res2 (if tpk then Some qarr2 else None) n2 n2).
-  split; [|split; reflexivity].
+  rewrite RQ, R, NR. exists (mkReq (next_req s1) k true (next_sid s2) app res2 (if tpk then Some qarr2 else None) n2 n2).
+  split; [|repeat split; reflexivity].
   assert (G : forall l x, find (matches nd r) l = None -> matches nd r x = true -> find (matches nd r) (l ++ [x]) = Some x).
-  { induction l as [|a l IH]; cbn [find app]; intros x F M; [rewrite M; reflexivity|].
+  { induction l as [|a l IH]; cbn [find List.app]; intros x F M; [rewrite M; reflexivity|].
     destruct (matches nd r a); [discriminate | apply IH; assumption]. }
   apply G; assumption.
+Qed.
+
+(* ------------------------------------------------------------------ several applications *)
+Lemma aget_app_arrs ar app addr :
+  aget Z.eqb addr (app_arrs ar app) = aget pair_eqb (app, addr) ar.
+Proof.
+  unfold app_arrs. induction ar as [|[[a ad] l] t IH]; cbn [flat_map aget fst snd]; [reflexivity|].
+  unfold pair_eqb at 1. cbn [fst snd].
+  destruct (Z.eqb a app) eqn:Ea.
+  - apply Z.eqb_eq in Ea. subst a. rewrite Z.eqb_refl. cbn [List.app aget andb].
+    destruct (Z.eqb addr ad); [reflexivity | exact IH].
+  - cbn [List.app]. rewrite Z.eqb_sym in Ea. rewrite Ea. cbn [andb]. exact IH.
+Qed.
+
+(* registering or stopping an application does not touch the matching bookkeeping: the
+   outstanding requests of every application, the pending responses (in particular those
+   that arrived early for a request some application has not issued yet), the consumption
+   log and the waiting subroutines are exactly as before *)
+Theorem lifecycle_leaves_bookkeeping_unchanged s e s' :
+  (exists app n, e = Init app n) \/ (exists app, e = Stop app) ->
+  step s e = (s', None) ->
+  reqs s' = reqs s /\ pend s' = pend s /\ log s' = log s /\ subs s' = subs s /\
+  next_req s' = next_req s /\ next_resp s' = next_resp s /\ issued s' = issued s.
+Proof.
+  intros [(app & n & ->)|(app & ->)]; cbn [step].
+  - destruct (registered s app); intros H; inversion H; subst. cbn. repeat split; reflexivity.
+  - destruct (aget Z.eqb app (ums s)); intros H; inversion H; subst. cbn. repeat split; reflexivity.
+Qed.
+
+(* ... and it leaves the other applications' arrays and unit modules alone *)
+Theorem stop_leaves_other_apps s app s' app' :
+  step s (Stop app) = (s', None) -> app' <> app ->
+  aget Z.eqb app' (ums s') = aget Z.eqb app' (ums s) /\
+  forall addr, aget pair_eqb (app', addr) (arrs s') = aget pair_eqb (app', addr) (arrs s).
+Proof.
+  cbn [step]. destruct (aget Z.eqb app (ums s)) as [um|]; [|discriminate].
+  intros H NE. inversion H; subst. cbn [frame ums arrs]. split.
+  - clear H. induction (ums s) as [|[a u] t IH]; cbn [adel filter aget fst]; [reflexivity|].
+    destruct (Z.eqb app a) eqn:Ea; cbn [negb].
+    + apply Z.eqb_eq in Ea. subst a. destruct (Z.eqb app' app) eqn:E2; [apply Z.eqb_eq in E2; contradiction | exact IH].
+    + cbn [aget]. destruct (Z.eqb app' a); [reflexivity | exact IH].
+  - intros addr. clear H. induction (arrs s) as [|[[a ad] l] t IH]; cbn [filter aget fst snd]; [reflexivity|].
+    destruct (Z.eqb a app) eqn:Ea; cbn [negb].
+    + apply Z.eqb_eq in Ea. subst a. unfold pair_eqb at 2. cbn [fst snd].
+      destruct (Z.eqb app' app) eqn:E2; [apply Z.eqb_eq in E2; contradiction | cbn [andb]; exact IH].
+    + cbn [aget]. destruct (pair_eqb (app', addr) (a, ad)); [reflexivity | exact IH].
 Qed.
